@@ -15,7 +15,7 @@ RULE = (
     "the component of A(J) orthogonal to the rows of J vanishes (all aggregators documented as weighted: the 13 "
     "_WeightedAggregator subclasses incl. fresh NashMTL instances, and ConFIG); orth - A(JQ) ~ A(J)Q for a drawn "
     "dense orthogonal or signed-permutation Q (UPGrad, DualProj, MGDA, PCGrad, CAGrad, IMTL-G, Aligned-MTL, ConFIG, "
-    "Krum, Mean, Sum, Constant, Random); colperm - A(J[:,p]) ~ A(J)[p]; zerocol - inserting 1-3 (or 100/1000/5000) zero columns at drawn "
+    "Krum, Mean, Sum, Constant, Random); colperm - A(J[:,p]) ~ A(J)[p]; zerocol - inserting 1-3 (or 100/1000/5000/20000) zero columns at drawn "
     "positions leaves the other coordinates unchanged and puts ~0 in the new ones (every aggregator but GradDrop, "
     "whose draws are per column; PCGrad/Random under a fixed seed, PCGrad with a scripted schedule so that its "
     "branch margins can be evaluated). Tolerances per algorithm (vlib/relations.py); MGDA two-level (fp when all "
@@ -51,10 +51,15 @@ def _case(draw, near=False):
     m = draw(st.integers(2, 7) if near else st.integers(1, 7))
     if name == "Krum":
         m = max(m, 4)
+    big_krum = name == "Krum" and not near and draw(st.sampled_from([True, False, False]))
+    if big_krum:
+        m = draw(st.integers(26, 40))  # beyond 25 rows torch.cdist may switch to matmul-based distances
     if name == "NashMTL":
         m = draw(st.integers(2, 5))
     full = name in rel.RANK_BASED or name in ("CAGrad", "NashMTL")
     n = draw(st.integers(m if full else 1, 9))
+    if big_krum:
+        n = draw(st.sampled_from([8, 16, 40]))
     spec = {"name": name}
     if name in ("UPGrad", "DualProj", "AlignedMTL", "ConFIG") and draw(st.booleans()):
         spec["pref"] = (10.0 ** rng.uniform(-1, 1, size=m)).tolist()
@@ -86,6 +91,10 @@ def _case(draw, near=False):
         else:
             J = build(fam, m, n, rng, {"cond": 30.0, "rank": draw(st.integers(1, max(1, min(m, n)))), "eps": 1e-2,
                                        "delta": 1e-2})
+    if big_krum:
+        # rows sharing a large common component (distances are small differences of large numbers)
+        J = rng.standard_normal((m, n)) + 10.0 ** draw(st.sampled_from([2, 3, 4])) * np.sign(rng.standard_normal(n))
+        fam = "common-offset"
     J = J * 10.0 ** draw(st.integers(-3, 3))
     if name in ("UPGrad", "DualProj", "CAGrad") and (near or draw(st.sampled_from([True, False, False, False]))):
         # largest singular value just above norm_eps (entries may be below it): the normalisation threshold must look
@@ -107,7 +116,7 @@ def _case(draw, near=False):
         case["perm"] = rng.permutation(n).tolist()
     elif relation == "zerocol":
         # 1-3 columns, or MANY (parameters that influence nothing are the common case in large models)
-        k = draw(st.sampled_from([1, 2, 3, 3, 100, 1000, 5000]))
+        k = draw(st.sampled_from([1, 2, 3, 100, 1000, 5000, 5000, 20000]))
         case["positions"] = sorted(rng.integers(0, n + 1, size=k).tolist()) if k <= 3 else {"count": k, "where": int(rng.integers(0, n + 1))}
     if name == "PCGrad":
         case["schedule"] = [rng.permutation(m).tolist() for _ in range(m)]
